@@ -748,27 +748,32 @@ class _Table:
 
 
 def _range2parts_wiring():
-    from pyvc.interp import file_ast
+    """Ground facts about the LIVE dispatcher the slow resolver builds (captured by running the real _range2parts with
+    schedula's DispatchPipe replaced by a recorder): independent of how the code that wires it is written."""
+    import schedula as _sh
     import formulas.tokens.operand as od
-    tree = file_ast(od.__file__.replace('.pyc', '.py'))[0]
-    fn = next(n for n in _ast.walk(tree) if isinstance(n, _ast.FunctionDef) and n.name == '_range2parts')
-    funcs, datas = [], {}
-    for call in _ast.walk(fn):
-        if not (isinstance(call, _ast.Call) and isinstance(call.func, _ast.Attribute)):
-            continue
-        if call.func.attr == 'add_function':
-            kw = {k.arg: k.value for k in call.keywords}
-            args = list(call.args)
-            names = ['function_id', 'function', 'inputs', 'outputs']
-            for i, a in enumerate(args):
-                kw.setdefault(names[i], a)
-            f = kw.get('function')
-            fname = _ast.unparse(f) if f is not None else None
-            funcs.append((fname, tuple(_ast.literal_eval(kw['inputs'])), tuple(_ast.literal_eval(kw['outputs']))))
-        elif call.func.attr == 'add_data':
-            kw = {k.arg: k.value for k in call.keywords}
-            did = _ast.literal_eval(kw['data_id'])
-            datas[did] = _ast.unparse(kw['default_value']) if 'default_value' in kw else None
+    captured = {}
+    real = _sh.DispatchPipe
+
+    def recorder(dsp, *a, **k):
+        captured['dsp'] = dsp
+        return real(dsp, *a, **k)
+    od.sh.DispatchPipe = recorder
+    try:
+        fn = getattr(od._range2parts, '__wrapped__', od._range2parts)
+        fn(('r1', 'c1', 'sheet_id'), ('name',))
+    finally:
+        od.sh.DispatchPipe = real
+    dsp = captured['dsp']
+
+    def fname(f):
+        n = getattr(f, '__name__', None) or getattr(getattr(f, 'func', None), '__name__', repr(f))
+        return 'sh.bypass' if f is _sh.bypass else n
+    funcs = [(fname(node['function']), tuple(node['inputs']), tuple(node['outputs'])) for node in dsp.function_nodes.values()]
+    datas = {}
+    for k, v in dsp.default_values.items():
+        val = v['value']
+        datas[k] = {od._maxcol(): '_maxcol()', od._maxrow(): '_maxrow()'}.get(val, repr(val)) if not isinstance(val, bool) else repr(val)
     want_funcs = {
         ('_sum', ('cr', 'rr1'), ('r1',)), ('_sum', ('cc', 'rc1'), ('n1',)),
         ('_sum', ('cr', 'rr2'), ('r2',)), ('_sum', ('cc', 'rc2'), ('n2',)),
@@ -799,7 +804,7 @@ PROPERTIES['C04']['explanation'] = (
     'Column letters <-> numbers inverse (complete up to ZZZ by unwinding); every fast resolver key set yields the A1 record; '
     'A1 / R1C1 / redundant-range / letter-case spellings give one identifier (relational lemmas between the real resolver paths); '
     'identifiers are injective (cells, rectangles, cell vs rectangle, arbitrary sheet ids); range2parts[FR] proved; the wiring of the '
-    'schedula-based slow resolver is checked as table obligations on its AST. Spelling -> parts through the regex, the slow resolver, '
+    'schedula-based slow resolver is checked as table obligations on the live dispatcher it builds. Spelling -> parts through the regex, the slow resolver, '
     'sheet qualifiers and read-back are bounded stages (B1).')
 PROPERTIES['C04']['assumptions'] = [
     'rows are canonical decimal text (kind DecStr); str(int) canonical and injective (uninterpreted dec/undec with per-occurrence axioms)',
